@@ -85,6 +85,7 @@ Lemma parse_frames now st d fs1 r1 : Forall vframe fs1 -> partial r1 -> fresh no
                     snd (cp_loop now (ps_x st) (map decode_ok fs1)), None).
 Proof.
   intros Hfs Hr Hf H. unfold parse. rewrite (unpack_frames _ _ _ _ Hfs Hr H). cbn [u_msgs u_hist u_err].
+  rewrite (delete_timeout_fresh _ _ Hf).
   pose proof (fresh_cp_loop now (map decode_ok fs1) _ Hf) as Hf1.
   destruct (cp_loop now (ps_x st) (map decode_ok fs1)) as [s1 outs]. cbn [fst snd] in *.
   rewrite (housekeeping_fresh _ _ Hf1). cbn [map]. now rewrite app_nil_r.
@@ -117,18 +118,6 @@ Proof.
   constructor. cbn [pst0 ps_hist app]. now rewrite app_nil_r.
 Qed.
 
-(* the completed messages parse delivers are the completions of the message-level machine *)
-Theorem cp_loop_is_run now ms : forall s,
-  fst (cp_loop now s ms) = fst (run s (map (fun rm => (now, EvMsg (snd rm))) ms)) /\
-  completed_msgs (snd (cp_loop now s ms)) = completed_outs (snd (run s (map (fun rm => (now, EvMsg (snd rm))) ms))).
-Proof.
-  induction ms as [|[raw m] t IH]; intros s; cbn [map cp_loop run snd]. split; reflexivity.
-  cbn [step]. destruct (complete_pack now s m) as [s1 r]. specialize (IH s1).
-  destruct (cp_loop now s1 t) as [s2 rest]. destruct (run s1 _) as [s2' os]. cbn [fst snd] in *.
-  destruct IH as [-> IH2]. split; auto.
-  destruct r as [data|]; unfold completed_msgs in *; cbn [app filter p_complete map completed_outs p_msg set_body m_id m_body];
-    now rewrite IH2.
-Qed.
 
 (* ================= reads spread over time ================= *)
 (* two transfer tables with the same ids in the same order and the same slot contents (time
@@ -203,6 +192,7 @@ Qed.
 
 Lemma parse_timed_frames now st d fs1 r1 : Forall vframe fs1 -> partial r1 ->
   ps_hist st ++ d = concat fs1 ++ r1 ->
+  delete_timeout now (ps_x st) = ps_x st ->
   delete_timeout now (fst (cp_loop now (ps_x st) (map decode_ok fs1))) = fst (cp_loop now (ps_x st) (map decode_ok fs1)) ->
   exists rrs, parse now st d =
     ({| ps_hist := r1; ps_x := fst (housekeeping now (fst (cp_loop now (ps_x st) (map decode_ok fs1)))) |},
@@ -210,7 +200,8 @@ Lemma parse_timed_frames now st d fs1 r1 : Forall vframe fs1 -> partial r1 ->
     same_slots (fst (cp_loop now (ps_x st) (map decode_ok fs1)))
                (fst (housekeeping now (fst (cp_loop now (ps_x st) (map decode_ok fs1))))).
 Proof.
-  intros Hfs Hr H. unfold parse. rewrite (unpack_frames _ _ _ _ Hfs Hr H). cbn [u_msgs u_hist u_err].
+  intros Hfs Hr H Hd0. unfold parse. rewrite (unpack_frames _ _ _ _ Hfs Hr H). cbn [u_msgs u_hist u_err].
+  rewrite Hd0.
   destruct (cp_loop now (ps_x st) (map decode_ok fs1)) as [s1 outs]. cbn [fst snd]. intros Hd.
   destruct (housekeeping now s1) as [s2 rrs] eqn:Hk. exists rrs. split; auto. cbn [fst].
   unfold housekeeping in Hk. destruct s1 as [|kv s1]. injection Hk as <- <-. constructor.
@@ -231,9 +222,9 @@ Proof.
   - cbn [map concat snd] in H. rewrite app_assoc in H.
     destruct (split_stream fs (ps_hist st ++ c) (concat (map snd cs)) r Hfs Hr H) as (fs1 & fs2 & r1 & -> & Hp & Hr1 & Hq & _).
     apply Forall_app in Hfs. destruct Hfs as [Hfs1 Hfs2].
-    cbn [no_expiry] in Hn. rewrite (unpack_frames _ _ _ _ Hfs1 Hr1 Hp) in Hn. cbn [u_msgs] in Hn. destruct Hn as [Hd Hn].
-    destruct (parse_timed_frames now st c fs1 r1 Hfs1 Hr1 Hp Hd) as (rrs & Hparse & Hss).
-    cbn [owns_timed feed_timed]. rewrite (unpack_frames _ _ _ _ Hfs1 Hr1 Hp). cbn [u_msgs].
+    cbn [no_expiry] in Hn. rewrite (unpack_frames _ _ _ _ Hfs1 Hr1 Hp) in Hn. cbn [u_msgs] in Hn. destruct Hn as (Hd0 & Hd & Hn).
+    destruct (parse_timed_frames now st c fs1 r1 Hfs1 Hr1 Hp Hd0 Hd) as (rrs & Hparse & Hss).
+    cbn [owns_timed feed_timed]. rewrite (unpack_frames _ _ _ _ Hfs1 Hr1 Hp). cbn [u_msgs]. rewrite Hd0.
     rewrite Hparse in *. cbn [fst snd] in *.
     destruct (ss_cp_loop now 0 (map decode_ok fs1) (ps_x st) sref Hs) as [Hs1 Ho1].
     set (st1 := {| ps_hist := r1; ps_x := fst (housekeeping now (fst (cp_loop now (ps_x st) (map decode_ok fs1)))) |}) in *.
@@ -321,8 +312,9 @@ Proof.
   induction reads as [|[now d] t IH]; intros st H F; cbn [no_expiry]; auto.
   inversion F as [|x l [Hx1 Hx2] Hl]; subst. cbn [fst] in *.
   pose proof (ca_cp_loop t0 now (u_msgs (unpack (ps_hist st) d)) _ Hx1 H) as H1.
-  split. now apply (ca_no_delete t0).
-  apply IH; auto. unfold parse.
+  pose proof (ca_no_delete t0 now _ H Hx2) as Hd0.
+  split. exact Hd0. split. now apply (ca_no_delete t0).
+  apply IH; auto. unfold parse. rewrite Hd0.
   destruct (cp_loop now (ps_x st) (u_msgs (unpack (ps_hist st) d))) as [s1 outs]. cbn [fst] in H1.
   pose proof (ca_housekeeping t0 now s1 H1 Hx2) as H2.
   destruct (housekeeping now s1) as [s2 rrs]. cbn [fst ps_x] in *. exact H2.
@@ -331,3 +323,28 @@ Qed.
 Theorem no_expiry_span : forall t0 reads,
   Forall (fun r => t0 <= fst r /\ fst r <= t0 + 60000) reads -> no_expiry pst0 reads.
 Proof. intros t0 reads F. apply (no_expiry_from t0); auto. constructor. Qed.
+
+(* the completed messages parse delivers are the completions of the message-level machine, whose
+   message events each begin with the expiry pass: within one read that pass acts at most once *)
+Theorem cp_loop_is_run now ms : forall s, delete_timeout now s = s ->
+  fst (cp_loop now s ms) = fst (run s (map (fun rm => (now, EvMsg (snd rm))) ms)) /\
+  completed_msgs (snd (cp_loop now s ms)) = completed_outs (snd (run s (map (fun rm => (now, EvMsg (snd rm))) ms))).
+Proof.
+  assert (Hy : forall s, delete_timeout now s = s <-> created_after (now - 60000) s).
+  { intros s. split.
+    - unfold created_after, delete_timeout. induction s as [|[k v] s IH]; cbn [filter]; intros H. constructor.
+      cbn [snd] in H. destruct (x_create v + 60000 <? now) eqn:E; cbn [negb] in H.
+      + exfalso. pose proof (filter_length_le (fun kv : N * xfer => negb (x_create (snd kv) + 60000 <? now)) s) as L.
+        rewrite H in L. cbn [length] in L. lia.
+      + injection H as H. constructor; auto. cbn [snd]. apply N.ltb_ge in E. lia.
+    - intros H. apply (ca_no_delete (now - 60000)); auto. lia. }
+  induction ms as [|[raw m] t IH]; intros s Hs; cbn [map cp_loop run snd]. split; reflexivity.
+  cbn [step]. rewrite Hs.
+  assert (delete_timeout now (fst (complete_pack now s m)) = fst (complete_pack now s m)) as Hs1.
+  { apply Hy. apply ca_complete_pack. lia. now apply Hy. }
+  destruct (complete_pack now s m) as [s1 r]. cbn [fst] in Hs1. specialize (IH s1 Hs1).
+  destruct (cp_loop now s1 t) as [s2 rest]. destruct (run s1 _) as [s2' os]. cbn [fst snd] in *.
+  destruct IH as [-> IH2]. split; auto.
+  destruct r as [data|]; unfold completed_msgs in *; cbn [app filter p_complete map completed_outs p_msg set_body m_id m_body];
+    now rewrite IH2.
+Qed.
